@@ -2,6 +2,10 @@
 use super::{ChanceInfoset, Node, Player, PlayerInfoset, PlayerNum};
 use std::mem;
 
+#[cfg(kani)]
+#[path = "/verif/kani/h_regret.rs"]
+mod verif_kani;
+
 // NOTE Some of these methods could be written to use thread pools, but it's not clear that this is
 // a large bottleneck so it's not worth the complexity
 
